@@ -411,6 +411,7 @@ func (w *Worker) runPathOnce(fn *ssa.Function, item WorkItem, retry bool) (bool,
 	w.loopBound = 0
 	w.absFloatArith = false
 	w.splitDiv = false
+	w.boundedChans = false
 	w.whereLog = w.whereLog[:0]
 	w.opaqueParseFloat = false
 	w.depth = 0
